@@ -664,12 +664,27 @@ class Event:
         """
         try:
             request = cast(C_STORE, self.request)
-            stream = cast(BytesIO, request.DataSet).getvalue()
+            path = getattr(request, "_dataset_path", None)
+            if not isinstance(path, Path):
+                stream = cast(BytesIO, request.DataSet).getvalue()
         except AttributeError:
             raise AttributeError(
                 "The corresponding event is not a C-STORE request and has no "
                 "'Data Set' parameter"
             )
+
+        if isinstance(path, Path):
+            # STORE_RECV_CHUNKED_DATASET: the dataset was written to file
+            #   in the DICOM File Format rather than kept in memory
+            with open(path, "rb") as f:
+                stream = f.read()
+
+            if include_meta:
+                return stream
+
+            # Skip the preamble, prefix and File Meta Information group
+            group_length = int.from_bytes(stream[140:144], "little")
+            return stream[144 + group_length :]
 
         if not include_meta:
             return stream
